@@ -5,12 +5,14 @@ from .. import gen as G, impl as I, oracle as O, util as U, opcases as OC
 from ..core import Fail
 
 PID = "C06"
+RULE_RING = ("; curved nested boundaries (a few-arc disk, whose control polygon may leave the container, inside a disk): kinds, number of curves and areas of big-small, ~(~big|small), ~big|small, ..., singleton laws on the ring and on its complement")
 RULE = ("every operator result on general-position operands of all kinds and on nested expressions: each boundary a closed "
         "chain (end of one segment IS the start of the next, also by identity), no zero-length segment, no self-crossing, "
         "Simple = one boundary, Connected = >= 2 boundaries bounding one region with holes, Disjoint = >= 2 pairwise "
         "disjoint components, documented kind tables; the singleton laws S|~S, S&~S, S-S, S^S, S^~S on every generated "
         "shape of every kind (identity with the singletons), also on one object after its complement was taken, the shape moved and the complement scaled in place; float operands with a crossing within an ulp of an existing "
         "vertex (well-formedness incl. no segment shorter than 1e-9, region away from the boundaries); non-trivial = operands cross or are composite; distinct = SHA-1")
+RULE = RULE + RULE_RING
 PROOF_STATUS = ("Props/C06.v: results of all five operators are shape_wf with closed boundaries (all inputs), complement kind "
                 "table, regrouping keeps the curves, singleton rows; no zero-length piece after any split, in any re-split operand, "
                 "in any complement, and in | / & results whose pieces exceed the 1e-9 point tolerance (refuted below it, replayed); "
@@ -23,6 +25,18 @@ def cases(ctx):
     for i in range(ctx.n(12, 300)):
         s = G.any_shape(rng, R=rng.choice([6, 12]), den=rng.choice([1, 2]), kinds=("S", "U", "C", "D"))
         yield {"laws": s, "num": "frac" if i % 3 else "int"}
+    # CURVED nested boundaries: a disk of few arcs (its control polygon reaches beyond the curve) inside a disk; the ring,
+    # its complement and the singleton laws on them -- kinds, curves, areas in closed form
+    import math
+    for i in range(ctx.n(2, 16)):
+        nd = [6, 5, 7, 6, 8, 16][i % 6]
+        ndb = [16, 8, 16, 32][i % 4]
+        # the curve of the inner disk reaches (cos + sec)/2 * r, its control points sec * r (half-angle pi/nd); the
+        # outer disk's chords come as close as cos(pi/ndb) to its centre, its control-point box reaches sec(pi/ndb)
+        reach, ctrl = (math.cos(math.pi / nd) + 1 / math.cos(math.pi / nd)) / 2, 1 / math.cos(math.pi / nd)
+        r = [0.95, 0.93, 0.9, 0.6][i % 4] * math.cos(math.pi / ndb) / reach
+        yield {"ring": [ndb, nd, r], "rot": [0.0, 0.3, math.pi / 16][i % 3], "c": [[0.0, 2.5, -7.0][i % 3], [0.0, 1.5][i % 2]],
+               "sticks_out": r * ctrl > 1 / math.cos(math.pi / ndb), "full": ctx.thorough()}
     # float operands with a crossing that coincides (within an ulp) with an existing vertex: the split parameter is
     # 1e-16 away from 0 or 1
     for i in range(ctx.n(24, 400)):
@@ -34,7 +48,7 @@ def cases(ctx):
 
 
 def nontrivial(case):
-    if "laws" in case:
+    if "laws" in case or "ring" in case:
         return True
     return OC.nontrivial(case)
 
@@ -126,8 +140,62 @@ def _overlap(j1, j2):
     return False
 
 
+def _ring(ctx, case):
+    fails = []
+    ndb, nd, r = case["ring"]
+    c = tuple(case["c"])
+    def mk():
+        big = I.Primitive.circle(1.0, c, ndb)
+        small = I.Primitive.circle(r, (0.0, 0.0), nd)
+        small.rotate(case["rot"])
+        small.move(c[0], c[1])
+        return big, small
+    big, small = mk()
+    ab, as_ = float(big), float(small)
+    ctx.count("ring: control polygon of the inner disk %s the outer disk" % ("leaves" if case["sticks_out"] else "stays inside"))
+    E_, W_ = I.EmptyShape(), I.WholeShape()
+    def kind_area(f):
+        r_ = I.outcome(f)
+        if r_[0] != "ok":
+            return r_
+        R = r_[1]
+        if R is E_ or R is W_:
+            return ("ok", type(R).__name__, 0.0, 0)
+        return ("ok", type(R).__name__, float(R), len(R.jordans))
+    close = lambda x, y: abs(x - y) <= 1e-9 * max(1.0, abs(y))
+    def expect(name, f, kind, area, ncurves):
+        got = kind_area(f)
+        if got[0] != "ok" or got[1] != kind or got[3] != ncurves or not close(got[2], area):
+            fails.append(Fail(kind="O", what="curved nested boundaries: %s is not a %s with %d curve(s) and area %.6g" % (name, kind, ncurves, area), impl=str(got)))
+    b, s = mk(); expect("big - small", lambda: b - s, "ConnectedShape", ab - as_, 2)
+    if not case.get("full"):
+        S0 = (lambda b, s: ~b | s)(*mk())
+        for law, f, want in (("S & ~S", lambda S: S & ~S, E_), ("S - S", lambda S: S - S, E_)):
+            r_ = I.outcome(lambda: f(S0))
+            if r_[0] != "ok" or r_[1] is not want:
+                fails.append(Fail(kind="O", what="singleton law %s fails on the complement of the ring of two curved disks" % law,
+                                  impl=(r_[0], type(r_[1]).__name__ if r_[0] == "ok" else r_[1])))
+        b, s = mk(); expect("~(~big | small)", lambda: ~(~b | s), "ConnectedShape", ab - as_, 2)
+        return fails
+    b, s = mk(); expect("big & ~small", lambda: b & ~s, "ConnectedShape", ab - as_, 2)
+    b, s = mk(); expect("~(~big | small)", lambda: ~(~b | s), "ConnectedShape", ab - as_, 2)
+    b, s = mk(); expect("~big | small", lambda: ~b | s, "DisjointShape", as_ - ab, 2)
+    b, s = mk(); expect("big | small", lambda: b | s, "SimpleShape", ab, 1)
+    b, s = mk(); expect("big & small", lambda: b & s, "SimpleShape", as_, 1)
+    b, s = mk(); expect("small - big", lambda: s - b, "EmptyShape", 0.0, 0)
+    for nm, mkS in (("ring", lambda: (lambda b, s: b - s)(*mk())), ("complement of the ring", lambda: (lambda b, s: ~b | s)(*mk()))):
+        for law, f, want in (("S & ~S", lambda S: S & ~S, E_), ("S - S", lambda S: S - S, E_), ("S ^ S", lambda S: S ^ S, E_), ("S | ~S", lambda S: S | ~S, W_)):
+            r_ = I.outcome(lambda: f(mkS()))
+            if r_[0] != "ok" or r_[1] is not want:
+                fails.append(Fail(kind="O", what="singleton law %s fails on the %s of two curved disks" % (law, nm),
+                                  impl=(r_[0], type(r_[1]).__name__ if r_[0] == "ok" else r_[1])))
+    return fails
+
+
 def check(ctx, case):
     fails = []
+    if "ring" in case:
+        return _ring(ctx, case)
     if "laws" in case:
         s, num = case["laws"], case["num"]
         ctx.count("laws:" + U.shape_kind(s))
